@@ -53,6 +53,8 @@ def zlabel(z):
         parts.append("prefix%d" % z.get("prefix", 0))
     if z.get("hangup"):
         parts.append("hangup")
+    if z.get("tag"):
+        parts.append(z["tag"])
     elif z["view"] == "planted":
         parts.append("serve-planted")
     elif z["view"] == "fork" and z["badAt"] >= 0:
@@ -206,6 +208,14 @@ def catalogue(tier, seed):
         add("mid", [zspec(view="fork", forkLen=150, badAt=pos, badKind=kind, expect="ban")], victimLen=130, honestLen=132, deadline=60000)
     if thorough:
         add("mid", [zspec(view="fork", forkLen=150, badAt=9, badKind="commitment-asif", expect="ban", dials=True)], victimLen=130, honestLen=132, deadline=60000, order="together")
+
+    # ---- in-flight budget flood: the victim runs with WithMaxInflightRPCsPerSubnet(cap) and /24 subnet keys; the Byzantine
+    # peer shares the /24 with the honest peer.  After the victim has synced, it fills the budget with half-open RPCs (id,
+    # never the request), sends more RPCs while the budget is full (dropped), disconnects -- possibly several rounds --
+    # and then the honest peer mines and relays new blocks: the victim must still follow, and at rest every in-flight
+    # counter must be 0 (a counter is the number of running handlers).
+    for regime, cap, rounds in ([("post", 2, 1), ("mid", 3, 2)] if not thorough else [("post", 2, 1), ("mid", 3, 2), ("post", 4, 3), ("v1", 2, 2), ("mid", 8, 1)]):
+        add(regime, [zspec(tag="flood", dials=True)], order="pfirst", flood=dict(cap=cap, halfOpen=cap, extra=cap + 2, rounds=rounds, grow=2), deadline=40000)
 
     # ---- ID twin, poison-then-heal: the victim sits on its own fork; the Byzantine peer holds only a PREFIX of the honest
     # fork (still lighter, at heights <= the victim's tip) and serves it through the AddBlocks path with one v2 block's
